@@ -842,6 +842,31 @@ func ruleCoupledHeader(c *Ctx, r *Rep, tier string) {
 				mu := hasEff(effs, "mapupdate", R+".owner."+k.seen+"["+N+"]", R+".id")
 				need(site+":delete-old", st.Ins, d != nil && instrDominates(d.Ins, st.Ins) || d != nil && pathOrder(d.Ins, st.Ins), "the old name leaves the owner's table before the field changes", "the old name stays in the owner's name table (or is deleted after the field already holds the new one)")
 				need(site+":insert-new", st.Ins, mu != nil, "the new name enters the owner's table with the item's id", "the new name is not entered in the owner's name table: a later item of that name is accepted")
+				if d != nil && mu != nil {
+					// delete(old) then insert(new): the other order erases the entry
+					// just made when an item is renamed to the name it already has
+					// (unless that case has been excluded by a test of the two names)
+					excluded := false
+					for _, b := range fn.Blocks {
+						iff := ifOf(b)
+						if iff == nil || b.Succs[0] == b.Succs[1] {
+							continue
+						}
+						if bo, ok := iff.Cond.(*ssa.BinOp); ok && (bo.Op == token.EQL || bo.Op == token.NEQ) {
+							kx, ky := symKey(bo.X), symKey(bo.Y)
+							if (kx == N && ky == R+"."+k.name) || (ky == N && kx == R+"."+k.name) {
+								e := 1 // names differ: false edge of ==
+								if bo.Op == token.NEQ {
+									e = 0
+								}
+								if dominatedByEdge(fn, b, e, d.Ins.Block()) {
+									excluded = true
+								}
+							}
+						}
+					}
+					need(site+":delete-before-insert", st.Ins, excluded || instrDominates(d.Ins, mu.Ins), "the old name is deleted before the new one is entered", "the new name is entered before the old one is deleted: renaming an item to the name it already has deletes the entry just made, the name disappears from the table and a second item of that name is accepted")
+				}
 				// under owner != nil
 				guard := false
 				if d != nil {
